@@ -19,7 +19,7 @@ import (
 
 const (
 	c15RelTol = 1e-12 // agreement with an independently computed reference value
-	c15UlpTol = 8e-16 // floating-point rounding noise accepted by the monotonicity laws
+	c15UlpTol = 2e-15 // floating-point rounding noise accepted by the monotonicity laws (Pow/Exp/Log1p are faithful to ~1 ulp each, not monotone to the last bit; the bound must not depend on the toolchain's kernels)
 )
 
 var c15Models = []string{"exponential", "linear", "step", "ebbinghaus"}
@@ -152,7 +152,7 @@ func c15ClassAge(age float64) string {
 
 func TestVerifC15Decay(t *testing.T) {
 	vkit.Run(t, "C15", func(ctx *vkit.Ctx) {
-		ctx.Assume("monotonicity laws accept floating-point rounding noise of 8e-16 relative (Pow/Exp/Log1p are not guaranteed monotone to the last bit); agreement with reference formulas is 1e-12")
+		ctx.Assume("monotonicity laws accept floating-point rounding noise of 2e-15 relative (Pow/Exp/Log1p are not guaranteed monotone to the last bit); agreement with reference formulas is 1e-12")
 		ctx.Assume("ages, half-lives and timestamps are finite float64 (JSON cannot carry NaN/Inf and a Duration is a finite int64)")
 
 		// D-C15-2 (probe in c15_engine_test.go): Ebbinghaus with an access count <= -2 yields NaN.
@@ -310,6 +310,12 @@ func TestVerifC15Decay(t *testing.T) {
 					age = -math.Pow(10, 10*r.Float64()) // future: 1 s … 300 years
 				case 1:
 					age = -float64(r.Range(0, 3))
+					if r.Chance(0.4) {
+						// a fractional stamp less than a second ahead of the clock: age in (-1, 0]
+						// when the call starts ("timestamps not in the past"), and the bracket decides
+						// if the clock ticks inside the call
+						age = -vkit.Pick(r, []float64{0.5, 0.25, 0.999, r.Float64()})
+					}
 				case 2:
 					age = float64(r.Range(0, 3))
 				case 3:
